@@ -530,3 +530,215 @@ def gen_C19(rng, tier, cfg):
 
 
 GENS["C19"] = gen_C19
+# --------------------------------------------------------------------------- Threefish (C09, C10)
+
+TF_SIZES = {"256": 32, "512": 64, "1024": 128}
+# the repository's own test vectors (NIST submission): (size, key, t0, t1, plaintext)
+TF_VECTORS = [
+    ("256", bytes(32), 0, 0, bytes(32)),
+    ("256", bytes(range(0x10, 0x30)), 0x0706050403020100, 0x0f0e0d0c0b0a0908, bytes(range(0xff, 0xdf, -1))),
+    ("512", bytes(64), 0, 0, bytes(64)),
+    ("512", bytes(range(0x10, 0x50)), 0x0706050403020100, 0x0f0e0d0c0b0a0908, bytes(range(0xff, 0xbf, -1))),
+    ("1024", bytes(128), 0, 0, bytes(128)),
+    ("1024", bytes(range(0x10, 0x90)), 0x0706050403020100, 0x0f0e0d0c0b0a0908, bytes(range(0xff, 0x7f, -1))),
+]
+
+
+def struct_u64(rng):
+    k = rng.below(8)
+    if k < 3:
+        return rng.next()
+    if k == 3:
+        return 0
+    if k == 4:
+        return 2**64 - 1
+    if k == 5:
+        return 1 << rng.below(64)
+    if k == 6:
+        return (2**64 - 1) ^ (1 << rng.below(64))
+    return rng.below(1 << 20)
+
+
+def single_bit(n, bit):
+    b = bytearray(n)
+    b[bit // 8] = 1 << (bit % 8)
+    return bytes(b)
+
+
+def tf_cases(rng, tier, size):
+    """(key, t0, t1, block) tuples: carry patterns, single bits in every word, structured random."""
+    n = TF_SIZES[size]
+    ones, zero = b"\xff" * n, bytes(n)
+    M = 2**64 - 1
+    out = []
+    # all-zero / all-ones in every combination: every addition carries (or none does)
+    for k in (zero, ones):
+        for t in ((0, 0), (M, M), (M, 0), (0, M)):
+            for b in (zero, ones):
+                out.append((k, t[0], t[1], b))
+    # a single bit in each key word / block word / tweak word (a defect confined to one word shows)
+    words = n // 8
+    step = 1 if tier != "quick" else max(1, words // 4)
+    for w in range(0, words, step):
+        bit = 64 * w + rng.below(64)
+        out.append((single_bit(n, bit), 0, 0, zero))
+        out.append((zero, 0, 0, single_bit(n, bit)))
+        out.append((single_bit(n, bit), M, M, ones))
+    for w in range(words - 3, words):   # the words that receive tweak / counter additions
+        out.append((single_bit(n, 64 * w + 63), 1 << 63, 1 << 63, single_bit(n, 64 * w + 63)))
+    for bit in (0, 31, 32, 63):
+        out.append((zero, 1 << bit, 0, zero))
+        out.append((zero, 0, 1 << bit, zero))
+        out.append((ones, 1 << bit, 1 << bit, zero))
+    nrand = 250 if tier == "quick" else 30000
+    for _ in range(nrand):
+        out.append((struct_bytes(rng, n), struct_u64(rng), struct_u64(rng), struct_bytes(rng, n)))
+    return out
+
+
+def tf_opname(cfg):
+    return "tfl" if cfg.startswith("nounroll") else "tf"
+
+
+def gen_C09(rng, tier, cfg):
+    op = tf_opname(cfg)
+    ops = []
+    stats = {"op": op, "sizes": {}, "vectors": len(TF_VECTORS)}
+    for (size, key, t0, t1, blk) in TF_VECTORS:
+        ops.append("%s %s enc %s %d %d %s" % (op, size, hx(key), t0, t1, hx(blk)))
+    for size in TF_SIZES:
+        cs = tf_cases(rng, tier, size)
+        for (key, t0, t1, blk) in cs:
+            ops.append("%s %s enc %s %d %d %s" % (op, size, hx(key), t0, t1, hx(blk)))
+        stats["sizes"][size] = len(cs)
+    return ops, stats
+
+
+def gen_C10(rng, tier, cfg):
+    """enc, dec, and both round trips (`encdec` = decrypt(encrypt b), `decenc` = encrypt(decrypt b));
+    the model's round trips are the identity by theorem, so a disagreement on those lines is a
+    block that the real code fails to recover."""
+    op = tf_opname(cfg)
+    ops = []
+    stats = {"op": op, "sizes": {}, "dirs": ["dec", "encdec", "decenc"]}
+    for (size, key, t0, t1, blk) in TF_VECTORS:
+        for d in ("dec", "encdec", "decenc"):
+            ops.append("%s %s %s %s %d %d %s" % (op, size, d, hx(key), t0, t1, hx(blk)))
+    for size in TF_SIZES:
+        cs = tf_cases(rng, tier, size)
+        for (key, t0, t1, blk) in cs:
+            for d in ("dec", "encdec", "decenc"):
+                ops.append("%s %s %s %s %d %d %s" % (op, size, d, hx(key), t0, t1, hx(blk)))
+        stats["sizes"][size] = len(cs)
+    return ops, stats
+
+
+# --------------------------------------------------------------------------- Skein (C05)
+
+SKEIN_N = [1, 2, 7, 8, 20, 31, 32, 33, 48, 63, 64, 65, 96, 127, 128, 129, 200, 256, 257, 1000]
+SKEIN_B = {"256": 32, "512": 64, "1024": 128}
+
+
+def skein_lengths(b):
+    return [0, 1, 2, 7, 8, 9, b - 1, b, b + 1, 2 * b - 1, 2 * b, 2 * b + 1, 3 * b - 1, 3 * b, 3 * b + 1, 4 * b,
+            5 * b + 3, 8 * b, 8 * b + 1]
+
+
+def split_pieces(rng, total, b):
+    """a partition of `total` with pieces drawn from 0, 1, b-1, b, b+1, 2b, 'fill the buffer'"""
+    out = []
+    left = total
+    while left > 0:
+        c = rng.choice([0, 1, b - 1, b, b + 1, 2 * b, 3 * b + 1, rng.below(2 * b + 2), left])
+        c = min(c, left)
+        out.append(c)
+        left -= c
+    return out or [0]
+
+
+def gen_C05(rng, tier, cfg):
+    ops = []
+    stats = {"variants": 0, "lengths": {}, "one_shot": 0, "chunked": 0, "reset": 0, "counter_ops": 0}
+    slot = 0
+    seed = 0
+
+    def one(variant, b, ln, chunked):
+        nonlocal seed
+        seed += 1
+        ops.append("skein new %d %s" % (slot, variant))
+        if chunked:
+            # the pieces are consecutive ranges of one pattern: send literal hex pieces
+            data = bytes(pat_bytes(seed, ln))
+            pos = 0
+            for c in split_pieces(rng, ln, b):
+                ops.append("skein update %d %s" % (slot, hx(data[pos:pos + c])))
+                pos += c
+            stats["chunked"] += 1
+        else:
+            if ln <= 64 and rng.below(3) == 0:
+                ops.append("skein update %d %s" % (slot, hx(struct_bytes(rng, ln))))
+            else:
+                ops.append("skein updpat %d %d %d" % (slot, ln, seed))
+            stats["one_shot"] += 1
+        ops.append("skein fin %d" % slot)
+        stats["lengths"][ln] = stats["lengths"].get(ln, 0) + 1
+
+    for size, b in SKEIN_B.items():
+        for n in SKEIN_N:
+            variant = "%s-%d" % (size, n)
+            stats["variants"] += 1
+            lens = skein_lengths(b)
+            if tier == "quick":
+                # every N sees the boundary lengths; the rest of the catalogue rotates
+                lens = [0, b, b + 1, 2 * b] + [rng.choice(lens) for _ in range(3)]
+            for ln in lens:
+                one(variant, b, ln, False)
+            for _ in range(2 if tier == "quick" else 8):
+                one(variant, b, rng.choice(skein_lengths(b)) + rng.below(3), True)
+            # finalize_reset / reset / clone and the state hooks
+            ops.append("skein new %d %s" % (slot, variant))
+            ops.append("skein updpat %d %d %d" % (slot, rng.choice(skein_lengths(b)), seed))
+            ops.append("skein getctr %d" % slot)
+            ops.append("skein getx %d" % slot)
+            ops.append("skein clone %d %d" % (slot, slot + 1))
+            ops.append("skein finreset %d" % slot)
+            ops.append("skein getctr %d" % slot)
+            ops.append("skein fin %d" % slot)             # = hash of the empty message
+            ops.append("skein updpat %d %d %d" % (slot + 1, b + 1, seed + 7))
+            ops.append("skein fin %d" % (slot + 1))
+            ops.append("skein reset %d" % (slot + 1))
+            ops.append("skein updpat %d %d %d" % (slot + 1, 2 * b, seed + 9))
+            ops.append("skein finreset %d" % (slot + 1))
+            stats["reset"] += 1
+        # every residue mod b (thorough), for three representative N
+        if tier != "quick":
+            for n in (1, 33, 257):
+                for ln in range(0, 3 * b + 2):
+                    one("%s-%d" % (size, n), b, ln, ln % 5 == 0)
+        # byte counter near a word boundary (hook): position field carries into bit 32 / wraps at 2^64
+        variant = "%s-%d" % (size, 32)
+        for ctr in (2**32 - b, 2**32 - 1, 2**63 - 5, 2**64 - 2 * b - 1, 2**64 - b, 2**64 - b + 1, 2**64 - 1):
+            ops.append("skein new %d %s" % (slot, variant))
+            ops.append("skein updpat %d %d %d" % (slot, b + 3, seed))
+            ops.append("skein setctr %d %d" % (slot, ctr))
+            ops.append("skein updpat %d %d %d" % (slot, b, seed + 1))   # processes exactly one more block
+            ops.append("skein new %d %s" % (slot + 2, variant))          # a panicked slot is discarded: use a fresh one
+            ops.append("skein updpat %d %d %d" % (slot + 2, 3, seed))
+            ops.append("skein setctr %d %d" % (slot + 2, ctr))
+            ops.append("skein getctr %d" % (slot + 2))
+            ops.append("skein fin %d" % (slot + 2))
+            stats["counter_ops"] += 1
+    return ops, stats
+
+
+def pat_bytes(seed, n):
+    out = bytearray()
+    for i in range(n):
+        x = (seed * 2654435761 + i * 2246822519 + 374761393) & 0xffffffff
+        y = (x ^ (x >> 15)) & 0xffffffff
+        z = (y * 2246822519) & 0xffffffff
+        out.append((z ^ (z >> 13)) & 0xff)
+    return out
+
+
+GENS = {"C01": gen_C01, "C05": gen_C05, "C09": gen_C09, "C10": gen_C10}
